@@ -22,6 +22,10 @@ pub fn validate(case: &MuxCase, model: &[Vec<MSample>], bytes: &[u8]) -> Result<
         Ok(t) => t,
         Err(e) => fail!("c02:tiling", "independent parser rejects the output: {}", e),
     };
+    // (a history may be muxed behind bytes the caller wrote first - one free box, see
+    // mux::lead_bytes; what the muxer produced then starts at the second top-level box)
+    let lead = mux::lead_bytes(case.sink);
+    let top: Vec<PBox> = if !lead.is_empty() && top.first().map(|b| b.typ == cc("free") && b.size == lead.len()).unwrap_or(false) { top.into_iter().skip(1).collect() } else { top };
     ensure!(!top.is_empty() && top[0].typ == cc("ftyp"), "c02:ftyp-first", "first top-level box is not ftyp");
     let moovs: Vec<&PBox> = top.iter().filter(|b| b.typ == cc("moov")).collect();
     ensure!(moovs.len() == 1, "c02:one-moov", "{} moov boxes", moovs.len());
